@@ -1,6 +1,6 @@
 (* C03 - specification: which functions must have a wrapper, stated on path COMPONENTS
-   (never on substrings of a path string); domain predicate for layouts; the recorded
-   classes; the observation read back from commands.ts through the module parser; the
+   (never on substrings of a path string); domain predicate for layouts (no recorded class
+   is left: C03-1 and C03-2 are repaired); the observation read back from commands.ts through the module parser; the
    boolean oracle. *)
 From Coq Require Import String Ascii.
 From Coq Require Import List Arith Bool Permutation.
@@ -60,15 +60,6 @@ Fixpoint node_ok (n : node) : bool :=
   | NDir name ch => name_ok name && forallb node_ok ch && nodup_b (map node_name ch)
   end.
 Definition layout_ok (l : layout) : bool := forallb node_ok l && nodup_b (map node_name l).
-
-(* ---- recorded classes ---- *)
-(* C03-1: the root path as spelled contains /target/ or /.git/ (once a separator follows it) *)
-Definition kf_root (root : str) : bool :=
-  contains (L "/target/") (norm_root root ++ [slash]) || contains (L "/.git/") (norm_root root ++ [slash]).
-(* C03-2: some accepted .rs file is not valid UTF-8 *)
-Definition is_notutf8 (c : content) : bool := match c with NotUtf8 => true | _ => false end.
-Definition kf_notutf8 (root : str) (l : layout) : bool :=
-  existsb (fun pc => accepted root (fst pc) && is_notutf8 (snd pc)) (walk l).
 
 (* ---- observation: the wrappers of a commands.ts, read through Spec/TsModule ---- *)
 Fixpoint show_ty (t : ty) : str :=
